@@ -167,6 +167,7 @@ type Op struct {
 	Q    []Tag  `json:"q,omitempty"`
 	B    []BOp  `json:"b,omitempty"`
 	N    []int  `json:"n,omitempty"` // setcfg: tag names
+	Qs   [][]Tag `json:"qs,omitempty"` // rquery (REST): disjunction of conjunctions c&&c||c&&c
 	O    []QOpt `json:"o,omitempty"` // queryopts: the query options, in order
 }
 
@@ -198,6 +199,10 @@ type Case struct {
 	Det bool `json:"det"`
 	Fmt int  `json:"fmt"` // which key/algorithm configuration (index into confs)
 	Ops []Op `json:"ops"`
+	// REST: the application talks to edv.RESTProvider (no formattedstore), the observer is the vault server
+	Rest bool `json:"rest,omitempty"`
+	Full bool `json:"full,omitempty"` // WithFullDocumentsReturnedFromQueries
+	BExt bool `json:"bext,omitempty"` // WithBatchEndpointExtension
 }
 
 // ---------- the real formatter, per configuration ----------
@@ -483,7 +488,9 @@ type world struct {
 	det    bool
 	rec    *hx.RecProvider
 	spy    *optSpy
-	top    *formattedstore.FormattedProvider
+	top    spi.Provider
+	rest   bool
+	srv    *vaultSrv
 	store  spi.Store
 	tab    map[string]string // per case: cf.recog + conjunction parts + random ids + unknowns
 	nRnd   int
@@ -512,6 +519,10 @@ func newWorld(c Case) (*world, error) {
 	}
 
 	w := &world{cf: confs[c.Fmt], det: c.Det, tab: map[string]string{}, ceks: map[string]int{}, plain: map[string]string{}}
+	if c.Rest {
+		return w, w.initRest(c)
+	}
+
 	w.spy = &optSpy{Provider: mem.NewProvider()}
 	w.rec = hx.NewRecProvider(w.spy)
 	w.top = formattedstore.NewProvider(w.rec, w.cf.formatter(c.Det))
@@ -559,10 +570,13 @@ func mkTags(t []Tag) []spi.Tag {
 	return r
 }
 
-func numTags(tags []spi.Tag) []Tag {
+func (w *world) numTags(tags []spi.Tag) []Tag {
 	r := make([]Tag, len(tags))
 	for i, x := range tags {
 		r[i] = Tag{nameNum(x.Name), tvalNum(x.Value)}
+		if w.rest && x.Name == "" { // the REST provider's key tag {"", key}
+			r[i] = Tag{0, keyNum(x.Value)}
+		}
 	}
 
 	return r
@@ -597,7 +611,7 @@ func (w *world) exec(o Op) (out Out) {
 			return errOut(err)
 		}
 
-		return Out{Kind: "tags", T: numTags(t)}
+		return Out{Kind: "tags", T: w.numTags(t)}
 	case "bulk":
 		ks := make([]string, len(o.Ks))
 		for i, k := range o.Ks {
@@ -615,8 +629,18 @@ func (w *world) exec(o Op) (out Out) {
 		}
 
 		return r
-	case "query", "queryopts":
+	case "query", "queryopts", "rquery":
 		var qopts []spi.QueryOption
+
+		expr := exprStr(o.Q)
+		if o.Kind == "rquery" {
+			parts := make([]string, len(o.Qs))
+			for i, q := range o.Qs {
+				parts[i] = exprStr(q)
+			}
+
+			expr = strings.Join(parts, "||")
+		}
 
 		for i, q := range o.O {
 			switch q.K {
@@ -634,7 +658,7 @@ func (w *world) exec(o Op) (out Out) {
 			}
 		}
 
-		it, err := s.Query(exprStr(o.Q), qopts...)
+		it, err := s.Query(expr, qopts...)
 		if err != nil {
 			return errOut(err)
 		}
@@ -668,7 +692,7 @@ func (w *world) exec(o Op) (out Out) {
 				return errOut(err)
 			}
 
-			r.R = append(r.R, Res{K: keyNum(k), V: valNum(v), T: numTags(t)})
+			r.R = append(r.R, Res{K: keyNum(k), V: valNum(v), T: w.numTags(t)})
 			if len(r.R) > 50 {
 				return Out{Kind: "err", Err: "iterator does not end"}
 			}
@@ -949,6 +973,10 @@ func (w *world) plainKey(s string) string {
 }
 
 func (w *world) plainTag(t spi.Tag) string {
+	if w.rest && t.Name == "" {
+		return "((L 0), " + w.plainKey(t.Value) + ")"
+	}
+
 	if t.Name == keyTagName {
 		v := w.unk()
 		if d, err := base64.StdEncoding.DecodeString(t.Value); err == nil {
@@ -1298,6 +1326,10 @@ func runCase(kind string, c Case, tr *hx.Trace, withCoq bool) {
 		mode = "deterministic-ids"
 	}
 
+	if c.Rest {
+		mode = fmt.Sprintf("REST:%s:full=%v:batchext=%v", mode, c.Full, c.BExt)
+	}
+
 	steps := make([]string, 0, len(c.Ops))
 	outs := make([]Out, 0, len(c.Ops))
 	classParts := []string{mode}
@@ -1305,10 +1337,19 @@ func runCase(kind string, c Case, tr *hx.Trace, withCoq bool) {
 	dist := map[string]bool{"mode=" + mode: true, "conf=" + w.cf.name: true}
 
 	for _, o := range c.Ops {
-		w.rec.Reset()
+		if c.Rest {
+			w.srv.reset()
+		} else {
+			w.rec.Reset()
+		}
 
 		got := w.exec(o)
-		calls := w.rec.Snapshot()
+
+		var calls []hx.Call
+		if !c.Rest {
+			calls = w.rec.Snapshot()
+		}
+
 		outs = append(outs, got)
 
 		if got.Kind == "panic" {
@@ -1341,6 +1382,24 @@ func runCase(kind string, c Case, tr *hx.Trace, withCoq bool) {
 			dist["call="+cl.Op] = true
 		}
 
+		if c.Rest {
+			for _, q := range w.srv.snapshot() {
+				t, kind := w.rcall(q)
+				cs = append(cs, t)
+				ck = append(ck, kind)
+				nCalls++
+				dist["call="+kind] = true
+			}
+
+			stored = len(w.ceks)
+			steps = append(steps, "("+coqROp(o)+", "+coqOut(got)+", ["+strings.Join(cs, "; ")+"])")
+			classParts = append(classParts, o.Kind+">"+got.Kind+">"+strings.Join(ck, "+"))
+			dist["op="+o.Kind] = true
+			dist["out="+got.Kind] = true
+
+			continue
+		}
+
 		steps = append(steps, "("+coqOp(o)+", "+coqOut(got)+", ["+strings.Join(cs, "; ")+"])")
 		classParts = append(classParts, o.Kind+">"+got.Kind+">"+strings.Join(ck, "+"))
 		dist["op="+o.Kind] = true
@@ -1348,7 +1407,11 @@ func runCase(kind string, c Case, tr *hx.Trace, withCoq bool) {
 	}
 
 	if withCoq {
-		rec.Coq = fmt.Sprintf("{| c_det := %s; c_steps := [%s] |}", hx.CoqBool(c.Det), strings.Join(steps, ";\n   "))
+		rec.Coq = fmt.Sprintf("FsCase %s [%s]", hx.CoqBool(c.Det), strings.Join(steps, ";\n   "))
+		if c.Rest {
+			rec.Coq = fmt.Sprintf("RestCase %s %s %s [%s]", hx.CoqBool(c.Det), hx.CoqBool(c.Full), hx.CoqBool(c.BExt),
+				strings.Join(steps, ";\n   "))
+		}
 	}
 
 	if len(w.fails) > 0 {
@@ -1733,14 +1796,12 @@ func main() {
 
 		var c struct {
 			Case *Case `json:"case"`
-			Det  bool  `json:"det"`
-			Fmt  int   `json:"fmt"`
-			Ops  []Op  `json:"ops"`
 		}
 
 		_ = json.Unmarshal(b, &c)
 		if c.Case == nil {
-			c.Case = &Case{Det: c.Det, Fmt: c.Fmt, Ops: c.Ops}
+			c.Case = &Case{}
+			_ = json.Unmarshal(b, c.Case)
 		}
 
 		runCase("replay", *c.Case, tr, true)
@@ -1759,9 +1820,15 @@ func main() {
 	}
 
 	exhaustive(exDepth, tr, rng)
+	restExhaustive(exDepth, tr, rng)
 
 	for j := 0; j < nRandom; j++ {
 		r := rng.Fork(uint64(j))
 		runCase("random", randomCase(r, 4+r.Intn(22)), tr, true)
+	}
+
+	for j := 0; j < nRandom/5; j++ {
+		r := rng.Fork(uint64(9_000_000 + j))
+		runCase("random-rest", randomRestCase(r, 4+r.Intn(22)), tr, true)
 	}
 }
